@@ -1381,6 +1381,31 @@ CORPUS += [
 ]
 
 
+CORPUS += [
+    # persist_state + timeout + window: the restored enabled block has no timeout running (observation), the fresh block of
+    # player 1 times out in the tick after its start; extra ball; game end and a second game (everything fresh)
+    ({"kind": "counter", "where": "game", "start": 0, "interval": 1, "down": False, "goal": 9, "reset_on_complete": False,
+      "disable_on_complete": False, "window": 2, "timeout": 1, "steps": 0, "start_enabled": True, "controls": [],
+      "persist": True, "players": 2, "delays": {"count": 1}},
+     [["enable"], ["count"], ["count"], ["dpost", "count"], ["drain"], ["count"], ["adv", 2], ["drain"], ["adv", 4], ["count"],
+      ["drain", "xb"], ["count"], ["enable"], ["adv", 1], ["newgame"], ["count"], ["drain"], ["count"]]),
+    # value templates of add / subtract / jump: event kwarg (int, float, None, missing) and machine variable; overrides of
+    # the hit and completion events (the same event twice in the hit list, two completion events)
+    ({"kind": "counter", "where": "machine", "start": 1, "interval": -2, "down": False, "goal": 6, "reset_on_complete": True,
+      "disable_on_complete": False, "window": 0, "timeout": 0, "steps": 0, "start_enabled": True,
+      "controls": [["add", "kw"], ["sub", "mv"], ["set", "kw"], ["set", "mv"]], "ev_hit": ["my_hit", "my_hit2", "my_hit"],
+      "ev_done": ["my_done", "my_done2"]},
+     [["count"], ["ctl", "add", "kw", 2.5], ["ctl", "add", "kw", None], ["ctl", "add", "kw", "missing"], ["ctl", "sub", "mv", -1.5],
+      ["ctl", "sub", "mv", None], ["ctl", "set", "kw", 6], ["count"], ["ctl", "set", "mv", 5], ["count"]]),
+    # start / goal variables set to None (-> 0) and to a float (-> int()); `hits` of the hit event goes negative
+    ({"kind": "counter", "where": "machine", "start": 2, "interval": 1, "down": False, "goal": 5, "reset_on_complete": True,
+      "disable_on_complete": False, "window": 0, "timeout": 0, "steps": 0, "start_enabled": True, "controls": [],
+      "ph_start": True, "ph_goal": True},
+     [["count"], ["setstart", 7], ["count"], ["setgoal", None], ["count"], ["setgoal", 4.5], ["setstart", None], ["reset"],
+      ["count"], ["setstart", -1.5], ["reset"], ["count"], ["count"]]),
+]
+
+
 def exhaustive(ctx, model):
     """thorough tier: every op sequence of length <= L over a small alphabet with 1- and 2-tick advances"""
     total = 0
@@ -1475,20 +1500,20 @@ def run(ctx):
             cfg = gen_cfg(r)
             ops = gen_ops(r, cfg, r.randint(6, 28))
             run_case(ctx, model, cfg, ops)
-        for flavour, nq, nt in (("delay", 220, 1600), ("tmpl", 90, 900), ("ctl", 70, 700), ("steps", 90, 900), ("down", 50, 500)):
+        for flavour, nq, nt in (("delay", 220, 1600), ("tmpl", 90, 900), ("ctl", 70, 500), ("steps", 90, 900), ("down", 50, 500)):
             for i in range(ctx.n(nq, nt)):
                 r = ctx.rng(flavour, i)
                 cfg = gen_cfg(r, None, flavour)
                 ops = gen_ops(r, cfg, r.randint(6, 28))
                 run_case(ctx, model, cfg, ops)
-        for i in range(ctx.n(110, 1200)):
+        for i in range(ctx.n(110, 900)):
             r = ctx.rng("game", i)
             cfg = gen_game_cfg(r)
             ops = gen_ops(r, cfg, r.randint(8, 24))
             run_case(ctx, model, cfg, ops)
         for i in range(ctx.n(40, 400)):
             fine_case(ctx, ctx.rng("fine", i))
-        sm_c18.run(ctx, model, ctx.n(120, 1500))          # state machine devices: comparison + counters only
+        sm_c18.run(ctx, model, ctx.n(120, 1000))          # state machine devices: comparison + counters only
         for i in range(ctx.n(60, 800)):
             r = ctx.rng("mode", i)
             cfg = gen_cfg(r, "mode")
